@@ -20,6 +20,9 @@ pub enum Mode {
     Typed,
     /// process history: compile ANOTHER program first (`warm_src`); its result is not compared
     Warm,
+    /// like Typed, but the type-checked program first goes through serde_json and back (a service
+    /// that type-checks once and ships the TypedProgram to its workers)
+    TypedSerde,
     /// history of the TypedProgram OBJECT: the program this party type-checked once is first
     /// compiled with OTHER constant values (another session of a service that type-checks once and
     /// compiles per session); its result is not compared, but it must not leave anything behind
@@ -137,7 +140,7 @@ fn run_steps(prog: &ProgSpec, steps: &[Step]) -> Vec<(Outcome, Vec<ProbeRec>)> {
             Mode::Lib => outcome_of(guarded(|| compile_src(src, &s.fn_name, consts, s.opts, true))).0,
             Mode::Default => outcome_of(guarded(|| garble_lang::compile_with_constants(src, consts).map(|g| g.circuit))).0,
             Mode::Warm => outcome_of(guarded(|| compile_src(src, "main", std::collections::HashMap::new(), Opts { register: false, dedup: true }, false))).0,
-            Mode::Typed | Mode::TypedOther => {
+            Mode::Typed | Mode::TypedOther | Mode::TypedSerde => {
                 if typed.is_none() {
                     let r = guarded(|| garble_lang::check(src));
                     typed = Some(match r {
@@ -157,6 +160,11 @@ fn run_steps(prog: &ProgSpec, steps: &[Step]) -> Vec<(Outcome, Vec<ProbeRec>)> {
                     consts
                 };
                 match typed.as_ref().unwrap() {
+                    Ok(tp) if s.mode == Mode::TypedSerde => outcome_of(guarded(|| {
+                        let shipped: garble_lang::TypedProgram = serde_json::from_str(&serde_json::to_string(tp).expect("TypedProgram serialises")).expect("TypedProgram deserialises");
+                        compile_typed(&shipped, &s.fn_name, consts, s.opts)
+                    }))
+                    .0,
                     Ok(tp) => outcome_of(guarded(|| compile_typed(tp, &s.fn_name, consts, s.opts))).0,
                     Err(o) => o.clone(),
                 }
@@ -560,7 +568,9 @@ fn draw_party(p: &mut Prng, fns: &[String], nconsts: usize, light: bool) -> Part
     let steps = combos
         .into_iter()
         .map(|(f, o)| {
-            let mode = if typed_party && p.chance(3, 4) {
+            let mode = if typed_party && p.chance(1, 4) {
+                Mode::TypedSerde
+            } else if typed_party && p.chance(2, 3) {
                 Mode::Typed
             } else if f == "main" && p.chance(1, 4) {
                 Mode::Lib
@@ -1091,6 +1101,11 @@ pub fn run_case(plan: &Plan, seed: u64, idx: u64) -> CaseResult {
     if !asked.is_empty() {
         if let Some(cold) = w.parties.iter().find(|q| q.process && q.alloc_limit.is_none() && q.steps.len() == 1).cloned() {
             let mut flips: Vec<Vec<String>> = vec![asked.clone()];
+            // host files that exist: also a twin in which they are there but say something else
+            // (every number in them replaced by 1: "the same file on a much smaller machine")
+            if asked.iter().any(|n| n.starts_with("file:")) {
+                flips.push(asked.iter().map(|n| n.replacen("file:", "filenum:", 1)).collect());
+            }
             if asked.len() > 1 {
                 flips.extend(asked.iter().map(|n| vec![n.clone()]));
             }
